@@ -413,9 +413,9 @@ func cmdApi(args []string) error {
 				}
 			}
 			var nilf *bexpr.Filter
-			same, _ := nilf.Execute(cont.V)
-			okNil := snapshot(same) == before
-			ctx.emit(group{Rel: "flag", Ok: okNil, Info: info("a nil Filter returns its input")})
+			same, nerr := nilf.Execute(cont.V)
+			okNil := snapshot(same) == before && nerr == nil
+			ctx.emit(group{Rel: "flag", Ok: okNil, Info: info("a nil Filter returns its input (and no error)")})
 		}
 	}
 	if err := sc.Err(); err != nil {
